@@ -502,26 +502,27 @@ class Grid:
                     possible_metric_vars = [
                         self._metrics[ac] for ac in axis_combinations
                     ]
-                    for possible_combinations in itertools.product(
-                        *possible_metric_vars
-                    ):
-                        metric_dims = set(
-                            [d for mv in possible_combinations for d in mv.dims]
+                    # for every block of the combination use the metric located at the
+                    # array's position if there is one, otherwise one to be interpolated
+                    chosen = []
+                    for candidates in possible_metric_vars:
+                        at_position = [
+                            mv for mv in candidates if set(mv.dims).issubset(array_dims)
+                        ]
+                        chosen.append(at_position[0] if at_position else candidates[-1])
+                    metric_dims = set([d for mv in chosen for d in mv.dims])
+                    if metric_dims.issubset(array_dims):
+                        # Condition 3: use provided metrics with matching dimensions to calculate for required metric
+                        metric_vars = tuple(chosen)
+                    else:
+                        # Condition 4: metrics in the wrong position (must interpolate before multiplying)
+                        possible_dims = [pc.dims for pc in chosen]
+                        warnings.warn(
+                            f"Metric at {array.dims} being interpolated from metrics at dimensions {possible_dims}. Boundary value set to 'extend'."
                         )
-                        if metric_dims.issubset(array_dims):
-                            # Condition 3: use provided metrics with matching dimensions to calculate for required metric
-                            metric_vars = possible_combinations
-                            break
-                        else:
-                            # Condition 4: metrics in the wrong position (must interpolate before multiplying)
-                            possible_dims = [pc.dims for pc in possible_combinations]
-                            warnings.warn(
-                                f"Metric at {array.dims} being interpolated from metrics at dimensions {possible_dims}. Boundary value set to 'extend'."
-                            )
-                            metric_vars = tuple(
-                                self.interp_like(pc, array, "extend", None)
-                                for pc in possible_combinations
-                            )
+                        metric_vars = tuple(
+                            self.interp_like(pc, array, "extend", None) for pc in chosen
+                        )
                     if metric_vars is not None:
                         # return the product of the metrics
                         metric_vars = functools.reduce(operator.mul, metric_vars, 1)
